@@ -58,6 +58,9 @@ def span_replay(res):
                     for ln_ in lines[:-1]:
                         starts.append(starts[-1] + len(ln_) + 1)
                     if 1 <= l1 <= len(lines) and 1 <= l2 <= len(lines) and (l1, c1) <= (l2, c2):
+                        w0 = {"kind": "parse", "input_hex": text.hex(), "opts": "default", "src": "slice", "api": "spans", "fast": True}
+                        if c1 > len(lines[l1 - 1]) or c2 > len(lines[l2 - 1]):
+                            return {"replayed": True, "observed": {"span": [sp["s"], sp["e"]], "problem": "column beyond the end of its line"}, "witness": w0}
                         piece = text[starts[l1 - 1] + c1:starts[l2 - 1] + c2]
                         w = {"kind": "parse", "input_hex": text.hex(), "opts": "default", "src": "slice", "api": "spans", "fast": True}
                         if not piece.strip() or piece != piece.strip():
